@@ -56,6 +56,11 @@ struct Config {
     global: Vec<Label>,
 }
 
+thread_local! {
+    /// what the bystander writer emits when used alone, per number of writes
+    static BYSTANDER: std::cell::RefCell<std::collections::BTreeMap<usize, Vec<Vec<u8>>>> = std::cell::RefCell::new(std::collections::BTreeMap::new());
+}
+
 struct Pending {
     op: Op,
     written: u64,
@@ -176,7 +181,14 @@ fn run_config(cfg: &Config, depth: usize, alpha: &[Op], ks: &[Key], res: &mut Pa
         };
         let mut pend: Vec<Pending> = Vec::new();
         let n = seq.len();
+        // A second, unrelated writer used in between (another exporter in the same process): one fixed gauge before
+        // every operation on the writer under test. What it emits must not depend on the other writer at all, so it is
+        // compared with the same writes made on a writer used alone (differential oracle, no hand-written expectation).
+        let mut by = Writer::new(64, true);
+        let by_key = Key::from_parts("by", vec![Label::new("w", "2")]);
+        let by_global = vec![Label::new("z", "9")];
         for i in 0..=n {
+            let _ = by.gauge(&by_key, 1.5, None, Some("q"), &by_global);
             // after the last op an implicit final drain checks whatever is pending
             let op = if i < n { alpha[seq[i]].clone() } else { Op::Drain };
             transitions += 1;
@@ -209,6 +221,21 @@ fn run_config(cfg: &Config, depth: usize, alpha: &[Op], ks: &[Key], res: &mut Pa
                     pend.clear();
                 }
             }
+        }
+        let got = by.drain();
+        let want = BYSTANDER.with(|b| {
+            let mut b = b.borrow_mut();
+            b.entry(n + 1).or_insert_with(|| {
+                let mut alone = Writer::new(64, true);
+                for _ in 0..=n {
+                    let _ = alone.gauge(&by_key, 1.5, None, Some("q"), &by_global);
+                }
+                alone.drain()
+            }).clone()
+        });
+        if got != want {
+            fails.push(("second-writer-disturbed".into(), format!("a second writer used in between emitted {:?}; used alone it emits {:?} (config {:?}, ops {:?})", got.iter().map(|p| String::from_utf8_lossy(p).to_string()).collect::<Vec<_>>(), want.iter().map(|p| String::from_utf8_lossy(p).to_string()).collect::<Vec<_>>(), cfg, seq.iter().map(|x| format!("{:?}", alpha[*x])).collect::<Vec<_>>()), seq.to_vec()));
+            return Some(n.saturating_sub(1));
         }
         None
     };
@@ -292,7 +319,7 @@ fn main() {
     driver::main(CheckDef {
         prop: "C09",
         level: "model_checking",
-        rule: "for every max_payload_len in {0..72 (thorough 0..260), boundary values around the longest payload, 8192} x length prefix {off,on} x prefix {None,p,pre} x global labels {[],[g:1]}: every sequence of the stated depth over 18 operations (counter/gauge with extreme values and optional timestamp, histogram/distribution with 0,1,2,3,40 values incl. NaN / +-inf / -0 / MAX / MIN_POSITIVE and optional sample rate, the same key with two different sample rates, names of length 0..12, labels with empty value, drain) on one real PayloadWriter, plus a final drain; every drained payload is parsed by an independent DogStatsD parser and matched against the writes since the previous drain (name, type, tags, values in order at round-trip precision, length prefix, size limit, written/dropped accounting); distinct = distinct (config class, drain shape) states",
+        rule: "for every max_payload_len in {0..72 (thorough 0..260), boundary values around the longest payload, 8192} x length prefix {off,on} x prefix {None,p,pre} x global labels {[],[g:1]}: every sequence of the stated depth over 18 operations (counter/gauge with extreme values and optional timestamp, histogram/distribution with 0,1,2,3,40 values incl. NaN / +-inf / -0 / MAX / MIN_POSITIVE and optional sample rate, the same key with two different sample rates, names of length 0..12, labels with empty value, drain) on one real PayloadWriter, plus a final drain, with a second, unrelated writer used before every operation (what it emits must equal what it emits when used alone); every drained payload is parsed by an independent DogStatsD parser and matched against the writes since the previous drain (name, type, tags, values in order at round-trip precision, length prefix, size limit, written/dropped accounting); distinct = distinct (config class, drain shape) states",
         assumptions: &["strings in names/tags are benign (no ':' '|' ',' or newline): the DogStatsD protocol has no escaping and the property does not ask for any"],
         parts,
         run,
